@@ -197,7 +197,7 @@ template<int L,class T,int QI> static void vec_facts(const u64* raw,vf::Ctx& c){
 	// ---- length()
 	len_type(c,P,std::is_same<decltype(V::length()),want_length_t>::value && std::is_same<LT,want_length_t>::value && std::is_same<glm::length_t,want_length_t>::value,TName<decltype(V::length())>::n(),TName<LT>::n(),TName<glm::length_t>::n());
 	Box<V> box; box.poison(0x5A); V* v=hide(new (box.obj()) V); const V* cv=v;
-	eqn(c,P,"length()-not-component-count",(long long)hide(v)->length(),L);
+	{ long long n=(long long)hide(v)->length(); eqn(c,P,"length()-not-component-count",n,L); if(n!=L) return; }   // glm asserts i < length(): never index beyond what it reports
 	// ---- addresses
 	bool addr_ok=true, vp_ok=true;
 	T* mp[4]={0,0,0,0}; Mem<L>::template ptrs<V,T>(*v,mp);
@@ -270,8 +270,7 @@ template<int C,int R,class T,int QI> static void mat_facts(const u64* raw,vf::Ct
 	const size_t S=colbytes/sizeof(T);
 	len_type(c,P,std::is_same<decltype(M::length()),want_length_t>::value && std::is_same<LT,want_length_t>::value,TName<decltype(M::length())>::n(),TName<LT>::n(),TName<glm::length_t>::n());
 	Box<M> box; box.poison(0x5A); M* m=hide(new (box.obj()) M); const M* cm=m;
-	eqn(c,P,"length()-not-column-count",(long long)hide(m)->length(),C);
-	eqn(c,P,"column-length()-not-row-count",(long long)(*hide(m))[0].length(),R);
+	{ long long n=(long long)hide(m)->length(), k=(long long)(*hide(m))[0].length(); eqn(c,P,"length()-not-column-count",n,C); eqn(c,P,"column-length()-not-row-count",k,R); if(n!=C||k!=R) return; }   // glm asserts i < length()
 	// ---- addresses
 	bool addr_ok=true, vp_ok=true;
 	for(int cc=0;cc<C;cc++){
@@ -326,7 +325,7 @@ template<class T,int QI> static void qua_facts(const u64* raw,vf::Ctx& c){
 	gen_size(c,P,AL,sizeof(QT),alignof(QT),4,sizeof(T),alignof(T),"sizeof-not-4*sizeof(T)","sizeof-less-than-4*sizeof(T)");
 	len_type(c,P,std::is_same<decltype(QT::length()),want_length_t>::value && std::is_same<LT,want_length_t>::value,TName<decltype(QT::length())>::n(),TName<LT>::n(),TName<glm::length_t>::n());
 	Box<QT> box; box.poison(0x5A); QT* q=hide(new (box.obj()) QT); const QT* cq=q;
-	eqn(c,P,"length()-not-4",(long long)hide(q)->length(),4);
+	{ long long n=(long long)hide(q)->length(); eqn(c,P,"length()-not-4",n,4); if(n!=4) return; }
 	// ---- member order
 	bool addr_ok=true, vp_ok=true;
 	at(c,P,"member-order:x-not-at-configured-position",&q->x,q,(long long)(QX*sizeof(T)),addr_ok);
